@@ -198,6 +198,12 @@ static uintptr_t __attribute__((noinline)) make(int id, int kind, int mode, int 
   return (uintptr_t)o ^ PMASK;
 }
 
+/* adopt: a holder (a Ref) is built and filled OUTSIDE the collector (alloc_raw) and then handed to it through the public
+   registration call set(gc, object, $I(root)): from that call on it is a managed (or root) object like any other, and what it
+   refers to is reachable through it - also for a threshold collection that this very call triggers */
+static uintptr_t __attribute__((noinline)) adopt_build(int j) { var h = alloc_raw(Ref); ref(h, P(j)); return (uintptr_t)h ^ PMASK; }
+static void __attribute__((noinline)) adopt_register(uintptr_t pm, int root) { set(current(GC), (var)(pm ^ PMASK), $I(root)); }
+
 static void __attribute__((noinline)) scrub(void) { volatile char* p = alloca(1 << 16); memset((void*)p, 0, 1 << 16); }
 
 static void __attribute__((noinline)) do_collect(int churn) {
@@ -376,6 +382,23 @@ static int __attribute__((noinline)) real_main(int argc, char** argv) {
       roots[0] = hc_exc[0] ? NULL : P(id);          /* the mutator holds a fresh object on its stack until told otherwise */
       ev_d = pointee;
       observe("new", id, kind, mode, hc_exc);
+      ev_flush();
+      continue;
+    }
+    if (hc_is(0, "adopt")) {                    /* adopt <k> <j> <std|root> <slot> */
+      int k = (int)hc_int(1), j = (int)hc_int(2), root = hc_is(3, "root") ? 1 : 0, slot = (int)hc_int(4);
+      if (k <= 0 || k >= MAXID || slot < 2 || slot >= 32) { fprintf(stderr, "bad adopt at line %ld\n", (long)cur_line); return 9; }
+      volatile uintptr_t pm = 0;
+      HC_TRY(pm = adopt_build(j));
+      if (!hc_exc[0]) {
+        for (int i = 0; i < 32; i++) if (ROOTSLOT(i) == P(j)) ROOTSLOT(i) = NULL;      /* from now on j is referred to by the holder only */
+        ROOTSLOT(slot) = (var)(pm ^ PMASK);
+        scrub();
+        HC_TRY(adopt_register(pm, root));
+        tab[k].p = pm; tab[k].kind = K_REF; tab[k].mode = root; set_state(k, 1); tab[k].inreg = 0; if (k > maxid) maxid = k;
+      }
+      ev_d = slot;
+      observe("adopt", k, j, root, hc_exc);
       ev_flush();
       continue;
     }
